@@ -4,7 +4,7 @@ export GOFLAGS=-mod=mod GOPROXY=off GOSUMDB=off GOTOOLCHAIN=local
 id=$1; pkg=${2:-}
 W=/tmp/wt-$id; S=/tmp/seed-$id/demo
 run() {
-  if [ -f $S/run.sh ]; then (cd $S && sh run.sh $W 2>&1 | tail -4)
+  if ls $S/run*.sh >/dev/null 2>&1; then (cd $S && sh $(ls run*.sh | head -1) $W 2>&1 | tail -4)
   elif [ -f $S/main.go ] && [ -f $S/go.mod ]; then (cd $S && go run . 2>&1 | tail -3)
   elif [ -f $S/go.mod ]; then (cd $S && go test -count=1 ./... 2>&1 | tail -4)
   else
